@@ -13,44 +13,3 @@ pub fn mpsc_send<T>(_s: &Sender<T>, _t: T) -> Result<(), SendError<T>> {
     Ok(())
 }
 
-/// `Bus::new` for harnesses whose `Bus::read`/`Bus::write` are replaced by the footprint memory:
-/// the real arrays are never touched there, so the 2 MiB DRAM / vector arrays are allocated with one
-/// byte (keeps the non-sliced formula of counterexample extraction small).  Never used together with
-/// the real `Bus::read`/`Bus::write`.
-pub fn bus_new_small(module_manager: std::rc::Weak<std::cell::RefCell<crate::modules::ModuleManager>>) -> crate::bus::Bus {
-    crate::bus::Bus {
-        message_tx: None,
-        module_manager,
-        cpu_state_sum: 0,
-        memory: crate::memory::create_memory(),
-        exception_handling_vector: vec![0; 1].into_boxed_slice(),
-        dram: vec![0; 1].into_boxed_slice(),
-        io_registrs1: vec![0; crate::bus::IO_REGISTERS1_SIZE].into_boxed_slice(),
-        io_registrs2: vec![0; crate::bus::IO_REGISTERS2_EMC1_SIZE].into_boxed_slice(),
-        io_port_in: [0; crate::bus::IO_PORT_SIZE],
-    }
-}
-
-/// `Bus::new` with the real on-chip RAM, vector area and I/O register arrays but a DRAM array of `N` bytes.
-/// Used only by the C09 harnesses that make the WRITE address symbolic: a symbolic-index store into the
-/// real 2 MiB array is a byte-update over two million elements (out of memory); those harnesses assume
-/// every DRAM access lies inside the first `N` bytes (N = 1: no DRAM access at all).
-fn bus_new_dram<const N: usize>(module_manager: std::rc::Weak<std::cell::RefCell<crate::modules::ModuleManager>>) -> crate::bus::Bus {
-    crate::bus::Bus {
-        message_tx: None,
-        module_manager,
-        cpu_state_sum: 0,
-        memory: crate::memory::create_memory(),
-        exception_handling_vector: vec![0; crate::bus::VENCTOR_SIZE].into_boxed_slice(),
-        dram: vec![0; N].into_boxed_slice(),
-        io_registrs1: vec![0; crate::bus::IO_REGISTERS1_SIZE].into_boxed_slice(),
-        io_registrs2: vec![0; crate::bus::IO_REGISTERS2_EMC1_SIZE].into_boxed_slice(),
-        io_port_in: [0; crate::bus::IO_PORT_SIZE],
-    }
-}
-pub fn bus_new_dram1(m: std::rc::Weak<std::cell::RefCell<crate::modules::ModuleManager>>) -> crate::bus::Bus {
-    bus_new_dram::<1>(m)
-}
-pub fn bus_new_dram4k(m: std::rc::Weak<std::cell::RefCell<crate::modules::ModuleManager>>) -> crate::bus::Bus {
-    bus_new_dram::<4096>(m)
-}
